@@ -759,7 +759,7 @@ func skIterRefreshCommand(a runArgs) error {
 	top := rand.New(rand.NewSource(a.seed))
 	for i := 0; i < a.n; i++ {
 		in := skGen(top, true)
-		in.Refresh = 1 + top.Intn(3)
+		in.Refresh = top.Intn(4) // 0 = a plain scan
 		in.MM = i%3 == 2
 		if i%2 == 0 {
 			// a long stable run of keys under the scan, other goroutines delete single keys of it
@@ -784,6 +784,10 @@ func skIterRefreshCommand(a runArgs) error {
 					scan = append(scan, skOp{Op: "next"})
 				}
 				if victim >= 10 {
+					if top.Intn(2) == 0 {
+						// a new node right in front of the one the iterator stands on, then that one goes
+						scan = append(scan, skOp{Op: "ins", K: victim - 5, Want: top.Intn(2)})
+					}
 					scan = append(scan, skOp{Op: "del", K: victim})
 				}
 				for k := 0; k < nk+1-j; k++ {
